@@ -79,4 +79,68 @@ MUTANTS = [
         self.exports.retain(|_, n| *n != index);
 
         Ok(())"""),
+
+    # ---------------- C16
+    dict(id="c16-define-type-hash-order", prop="C16", expect="R16.1|wac_graph::graph::CompositionGraph::define_type|", file=G,
+         old="""        let mut defined: Vec<_> = self.defined.iter().collect();
+        defined.sort_by_key(|(_, other)| **other);
+        for (other_ty, other) in defined {""",
+         new="""        for (other_ty, other) in &self.defined {"""),
+    dict(id="c16-world-include-values-next", prop="C16", expect="R16.1|wac_parser::resolution::AstResolver::<'a>::world_include|", file="crates/wac-parser/src/resolution.rs",
+         old="""        if let Some(missing) = include
+            .with
+            .iter()
+            .find(|item| replacements.contains_key(item.from.string))
+        {""",
+         new="""        if let Some(missing) = replacements.values().next() {"""),
+    dict(id="c16-plug-hashmap", prop="C16", expect="R16.1|wac_cli::commands::plug::PlugCommand::exec", file="src/commands/plug.rs",
+         old="""let mut plugs_by_name = indexmap::IndexMap::<_, Vec<_>>::new();""",
+         new="""let mut plugs_by_name = std::collections::HashMap::<_, Vec<_>>::new();"""),
+    dict(id="c16-encode-imports-vec", prop="C16", expect="R16.1|wac_graph::graph::CompositionGraphEncoder::<'a>::encode_imports|", file=G,
+         old="""        for (name, node_index) in explicit_imports {
+            let canonical = aggregator.canonical_import_name(name);
+            let (_, encoded_index) = encoded[canonical];
+            state.node_indexes.insert(node_index, encoded_index);
+        }""",
+         new="""        for (name, node_index) in explicit_imports {
+            let canonical = aggregator.canonical_import_name(name);
+            let (kind, encoded_index) = encoded[canonical];
+            state.node_indexes.insert(node_index, encoded_index);
+            state
+                .implicit_args
+                .entry(node_index)
+                .or_default()
+                .push((name.to_owned(), kind, encoded_index));
+        }"""),
+    dict(id="c16-first-import-of-map", prop="C16", expect="R16.1|wac_graph::graph::CompositionGraph::get_import_name", file=G,
+         old="""        let node = self.graph.node_weight(node.0).expect("invalid node id");
+        match &node.kind {
+            NodeKind::Import(name) => Some(name),
+            _ => None,
+        }
+    }""",
+         new="""        let node = self.graph.node_weight(node.0).expect("invalid node id");
+        match &node.kind {
+            NodeKind::Import(name) => Some(name),
+            _ => self.imports.keys().next().map(|s| s.as_str()),
+        }
+    }"""),
+    dict(id="c16-systemtime", prop="C16", expect="R16.2|", file=G,
+         old="""        let mut state = State::new();
+
+        // Separate import nodes from other nodes keeping topological order""",
+         new="""        let mut state = State::new();
+        let _started = std::time::SystemTime::now();
+
+        // Separate import nodes from other nodes keeping topological order"""),
+    dict(id="c16-control-count", prop="C16", control=True, file=G,
+         old="""        let mut state = State::new();
+
+        // Separate import nodes from other nodes keeping topological order""",
+         new="""        let mut state = State::new();
+        let _n = self.0.imports.values().filter(|n| n.index() > 0).count();
+        let mut sorted: Vec<_> = self.0.defined.values().collect();
+        sorted.sort();
+
+        // Separate import nodes from other nodes keeping topological order"""),
 ]
